@@ -1,6 +1,9 @@
 package main
 
 import (
+	"encoding/json"
+	"go/types"
+
 	"golang.org/x/tools/go/ssa"
 )
 
@@ -16,5 +19,56 @@ func (e *Exec) invokeIntrinsic(recv *IfaceV, method string, args []Value) func()
 }
 
 func addMoreIntrinsics(m map[string]intrinsic) {
-	_ = ssa.Function{}
+	// --- encoding/json on strings (C13/C14); everything else about the codec is trusted, not executed ---
+	m["encoding/json.Marshal"] = func(e *Exec, fn *ssa.Function, args []Value) Value {
+		iv := args[0].(*IfaceV)
+		if iv.T != nil && isString(iv.T) {
+			sv := iv.V.(*StrV)
+			if sv.C != nil {
+				b, err := json.Marshal(*sv.C)
+				if err == nil {
+					return &TupleV{E: []Value{e.byteSlice(b), &IfaceV{}}}
+				}
+			}
+		}
+		e.stub("uf:json.Marshal")
+		return e.ufCall("json.Marshal", args, fn.Signature.Results())
+	}
+	m["encoding/json.Unmarshal"] = func(e *Exec, fn *ssa.Function, args []Value) Value {
+		data := args[0].(*SliceV)
+		iv := args[1].(*IfaceV)
+		if iv.T == nil {
+			e.unsupported("json.Unmarshal into nil")
+		}
+		pt, ok := iv.T.Underlying().(*types.Pointer)
+		if !ok || !isString(pt.Elem()) {
+			e.unsupported("json.Unmarshal into %s (only *string is modelled)", iv.T.String())
+		}
+		target := iv.V.(*PtrV)
+		if bs, ok := e.concBytes(data); ok {
+			var out string
+			err := json.Unmarshal(bs, &out)
+			if err != nil {
+				return e.mkError(err.Error())
+			}
+			e.store(target, cstr(out), e.curSite)
+			return &IfaceV{}
+		}
+		// model: a JSON string without escapes or control characters decodes to its body;
+		// any other input is left to an uninterpreted result
+		d := e.bytesToStr(data)
+		e.stub("model:json.Unmarshal(simple string)")
+		simple := &BoolV{T: "(str.in_re " + d.T + ` (re.++ (str.to_re "\u{22}") (re.* (re.union (re.range " " "!") (re.range "#" "[") (re.range "]" "~"))) (str.to_re "\u{22}")))`}
+		if e.branch(simple) {
+			body := e.nameValue(&StrV{T: "(str.substr " + d.T + " 1 (- (str.len " + d.T + ") 2))"}, "js")
+			e.store(target, body, e.curSite)
+			return &IfaceV{}
+		}
+		e.stub("uf:json.Unmarshal")
+		r := e.ufCall("json.Unmarshal", []Value{d}, fn.Signature.Results()).(*IfaceV)
+		if r.T == nil {
+			e.store(target, e.ufCall("json.Unmarshal.value", []Value{d}, types.Typ[types.String]), e.curSite)
+		}
+		return r
+	}
 }
